@@ -8,46 +8,6 @@ import (
 	"github.com/gobwas/ws"
 )
 
-// vCutSrc serves data[:cut] and then EOF or an error.
-type vCutSrc struct {
-	data   []byte
-	cut    int
-	pos    int
-	useErr bool
-	one    bool
-}
-
-var vErrSrc = &vErr{"harness: transport failed"}
-
-func (s *vCutSrc) Read(p []byte) (int, error) {
-	if s.pos >= s.cut {
-		if s.useErr {
-			return 0, vErrSrc
-		}
-		return 0, io.EOF
-	}
-	if len(p) == 0 {
-		return 0, nil
-	}
-	n := s.cut - s.pos
-	if n > len(p) {
-		n = len(p)
-	}
-	if s.one {
-		n = 1
-	}
-	copy(p, s.data[s.pos:s.pos+n])
-	s.pos += n
-	return n, nil
-}
-
-type vCutRW struct {
-	vCutSrc
-	out []byte
-}
-
-func (c *vCutRW) Write(p []byte) (int, error) { c.out = append(c.out, p...); return len(p), nil }
-
 // vLayout describes where the frames of one generated stream start/end on the wire.
 type vFrameSpan struct {
 	start, hdrEnd, end int
